@@ -2,28 +2,40 @@
 (***************************************************************************)
 (* Trace validation for C07.  One trace = one import scenario executed on  *)
 (* the real library (harness/import_gen.py):                                *)
-(*   arch, method, mode, fold, auto          the scenario                   *)
+(*   arch, method, mode, fold, auto, hist     the scenario                  *)
 (*   O        layer sequence of the user's model (fx projection, before)    *)
-(*   conv_ok, err                            did the constructor return     *)
+(*   snopt0 / snopt1  options of every SuperNet block read from the USER's  *)
+(*            combiner objects before / after the conversion                *)
+(*   conv_ok, err, errk                      did the constructor return     *)
 (*   u0 / w1 s1 u1 kids     .training of the user's model before / of the   *)
 (*                          wrapper, its seed, the user's model after       *)
+(*   N        layer sequence of the converted (searchable) graph: the       *)
+(*            attributes are read off the layer objects the search uses     *)
 (*   masks    per searchable layer: node n, features / time / input mask    *)
-(*   dw       rel. difference wrapped vs original output, eval, float64,    *)
+(*   dw       rel. difference wrapped vs ORIGINAL OUTPUT RECORDED BEFORE    *)
+(*            the conversion, eval, float64,                                *)
 (*            floor(1e12 * max|dy| / (1 + max|y|)) capped at 2e9            *)
 (*   sd_vals  every pre-existing state_dict entry of the user's model is    *)
 (*            bitwise unchanged;  sd_keys: no key was added either          *)
-(*   du       rel. difference of the USER's model output after vs before    *)
-(*   sm       SetMode steps: wrapper.train(b) for b = flipped, back, final;  *)
-(*            flags of wrapper / seed / modules below after each step       *)
-(*   exp_ok, E   immediate export() (after the SetMode steps): layer        *)
-(*            sequence of the result                                        *)
+(*   attrs_changed   names of the simple attributes (numbers, flags,        *)
+(*            strings, tuples, sampling method) of the user's modules whose *)
+(*            value changed                                                 *)
+(*   du       rel. difference of the USER's model output after vs the       *)
+(*            output recorded before                                        *)
+(*   H        one record per history step: action, ok, flags of the wrapper *)
+(*            (w), its seed (s), kids = every module below has the          *)
+(*            wrapper's flag                                                *)
+(*   dwh      after the history, if the wrapper is in eval mode: rel.       *)
+(*            difference of wrapper(x) - as it is - vs the original output  *)
+(*   sd_vals_end   the user's parameters after the history                  *)
+(*   exp_ok, E   export() after the history: layer sequence of the result   *)
 (*   de       rel. difference export vs original (only where no BatchNorm   *)
 (*            had to be re-created), prediction only                        *)
 (* Every expected value is recomputed here with the operators of ImportLife *)
-(* that ImportLifeMC model-checks (OrigSeq, ExpSeq, Convert("asis"), ...).  *)
+(* that ImportLifeMC model-checks (OrigSeq, NasSeq, ExpSeq, Convert, ...).  *)
 (* Verdict: first property clause that fails ("C07...."), else a known      *)
-(* finding matched by signature ("known:F50:..", "known:F51:.."), else a    *)
-(* failed prediction ("drift:.."), else "ok".                               *)
+(* finding matched by signature ("known:F5x:.."), else a failed prediction  *)
+(* ("drift:.."), else "ok".                                                 *)
 (***************************************************************************)
 EXTENDS ImportLife, Json, IOUtils, TLC
 
@@ -36,7 +48,7 @@ TOL == 1000        \* 1e-9 relative, in units of 1e-12
 AllOnes(s) == \A j \in DOMAIN s : s[j] = 1
 Claimed(m) == m \in {"PIT", "SN"}
 
-CfgOf(t) == [method |-> t.method, mode |-> t.mode, fold |-> t.fold, auto |-> t.auto]
+CfgOf_(t) == [method |-> t.method, mode |-> t.mode, fold |-> t.fold, auto |-> t.auto]
 
 FirstDiff(obs, exp) ==
     IF Len(obs) # Len(exp) THEN "length " \o ToString(Len(obs)) \o " expected " \o ToString(Len(exp))
@@ -49,23 +61,53 @@ V(m) == <<"viol", m>>
 K(m) == <<"known", "known:" \o m>>
 D(m) == <<"drift", "drift:" \o m>>
 
-CHarness(t, a) ==
-    IF ~InDomain(a) THEN D("harness: architecture outside the domain of C07 (F19 / F24 topology of the graph pass)")
-    ELSE IF t.O = OrigSeq(a) THEN OK
-    ELSE D("harness: projection of the built user model differs from OrigSeq(arch): " \o FirstDiff(t.O, OrigSeq(a)))
+\* options of the SuperNet blocks as logged (sequence of [n, hard, gum, temp, fav]) vs as declared in the architecture
+OptsOf(a) == [n \in SNSites(a) |-> Nd(a, n).sno]
+LoggedOpts(l) == [n \in {l[j].n : j \in DOMAIN l} |->
+                     LET r == l[CHOOSE j \in DOMAIN l : l[j].n = n]
+                     IN  [hard |-> r.hard, gum |-> r.gum, temp |-> r.temp, fav |-> r.fav]]
 
-CConvert(t) ==
-    IF t.conv_ok \/ t.method = "MPS" THEN OK       \* MPS rejections are skipped (and counted by the harness)
+\* the history is one the state machine can take (forward only in eval mode) - a harness obligation
+RECURSIVE HistOk(_, _, _)
+HistOk(h, i, wm) == IF i > Len(h) THEN TRUE
+                    ELSE CASE h[i] = "train" -> HistOk(h, i + 1, TRUE)
+                           [] h[i] = "eval"  -> HistOk(h, i + 1, FALSE)
+                           [] h[i] = "forward" -> ~wm /\ HistOk(h, i + 1, wm)
+                           [] h[i] \in {"export", "summary", "cost"} -> HistOk(h, i + 1, wm)
+                           [] OTHER -> FALSE
+
+CHarness(t, a, asis) ==
+    IF ~InDomain(a) THEN D("harness: architecture outside the domain of C07 (F19 / F24 topology of the graph pass)")
+    ELSE IF t.O # OrigSeq(a)
+         THEN D("harness: projection of the built user model differs from OrigSeq(arch): " \o FirstDiff(t.O, OrigSeq(a)))
+    ELSE IF LoggedOpts(t.snopt0) # OptsOf(a)
+         THEN D("harness: options of the built SuperNet blocks " \o ToString(t.snopt0) \o " differ from the architecture")
+    ELSE IF t.conv_ok /\ ~HistOk(t.hist, 1, IF t.method = "SN" THEN asis.wtrain ELSE t.mode = "train")
+         THEN D("harness: history " \o ToString(t.hist) \o " is not a behaviour of the state machine")
+    ELSE OK
+
+\* the constructor returns; documented rejections are skipped; the F52 / F53 topologies are known findings
+CConvert(t, a, cfg) ==
+    IF t.method = "MPS" THEN OK                      \* MPS rejections are skipped (and counted by the harness)
+    ELSE IF t.conv_ok THEN
+        IF Rejected(a, cfg) THEN D("a configuration the model lists as rejected by plinio was accepted") ELSE OK
+    ELSE IF (Rej_Trs(a, cfg) /\ t.errk = "trs") \/ (Rej_Groups(a, cfg) /\ t.errk = "groups") THEN OK
+    ELSE IF KF_BnNoAffine(a, cfg) /\ t.errk = "other"
+        THEN K("F53:PIT(model) raises on a BatchNorm with affine=False (" \o t.err \o ")")
+    ELSE IF KF_Lin3(a, cfg) /\ t.errk = "other"
+        THEN K("F52:PIT(model) raises on a searchable nn.Linear applied to a 3-D tensor (" \o t.err \o ")")
     ELSE V("C07.convert: constructor raised " \o t.err)
+
+Lin3Broken(t, a, cfg) == KF_Lin3(a, cfg)     \* converted, but forward / export of the searchable model raise (F52)
 
 \* "all masks initially open": every mask of every searchable layer is all ones and has the original geometry
 CMasks(t, a, cfg) ==
-    IF t.method # "PIT" THEN OK
+    IF t.method # "PIT" \/ Lin3Broken(t, a, cfg) THEN OK
     ELSE LET bad == {j \in DOMAIN t.masks :
                         LET m == t.masks[j] IN
                         ~(/\ m.ok /\ m.n \in Layers(a)
                           /\ AllOnes(m.fm) /\ AllOnes(m.tm) /\ AllOnes(m.told)
-                          /\ Len(m.fm) = Ch(a, m.n)
+                          /\ Len(m.fm) = (IF Op(a, m.n) = "lin3" THEN Nd(a, m.n).out ELSE Ch(a, m.n))
                           /\ (Len(m.tm) > 0 => Len(m.tm) = Nd(a, m.n).k))}
              seen == {t.masks[j].n : j \in DOMAIN t.masks}
              want == {Owner(a, n) : n \in {x \in PlainSites(a) : Handled(a, cfg, x)}}
@@ -73,6 +115,15 @@ CMasks(t, a, cfg) ==
                                   \o " is not fully open / has not the original size")
              ELSE IF seen # want THEN D("searchable layers " \o ToString(seen) \o ", the model says " \o ToString(want))
              ELSE OK
+
+\* ImportedConfig = OriginalConfig, field by field, read off the layer objects of the converted graph
+CNasCfg(t, a, cfg) ==
+    IF ~Claimed(t.method) THEN OK
+    ELSE LET exp == IF t.method = "SN" THEN OrigSeq(a) ELSE NasSeq(a, cfg) IN
+         IF CfgOnly(t.N) # CfgOnly(exp)
+         THEN V("C07.imported_config: layers of the converted model: " \o FirstDiff(CfgOnly(t.N), CfgOnly(exp)))
+         ELSE IF t.N # exp THEN D("converted graph: " \o FirstDiff(t.N, exp))
+         ELSE OK
 
 CWrapped(t, a, cfg, asis) ==
     IF ~Claimed(t.method) THEN OK
@@ -82,17 +133,20 @@ CWrapped(t, a, cfg, asis) ==
         ELSE OK
     ELSE IF cfg.fold /\ KF_ReuseBN(a, cfg) /\ ~FnPreserved(a, asis)
          THEN K("F51:fold_bn=True folds the BatchNorm of a reused conv/linear+BN pair once per call site: wrapped model differs from the original by " \o ToString(t.dw) \o "e-12")
-         ELSE V("C07.wrapped_equal: wrapped and original outputs differ in eval mode by " \o ToString(t.dw) \o "e-12 (relative), tolerance 1000")
+    ELSE IF Lin3Broken(t, a, cfg) /\ ~asis.ok
+         THEN K("F52:searchable nn.Linear on a 3-D tensor: forward of the converted model raises / differs (" \o t.err \o ")")
+         ELSE V("C07.wrapped_equal: wrapped output differs from the original output recorded before the conversion (eval mode) by " \o ToString(t.dw) \o "e-12 (relative), tolerance 1000")
 
 CUserParams(t, a, cfg, asis) ==
     IF ~Claimed(t.method) THEN OK
-    ELSE IF t.sd_vals THEN
+    ELSE IF t.sd_vals /\ t.sd_vals_end THEN
         IF ~UserParamsKept(a, cfg, asis)
         THEN D("F50 predicted by the as-implemented model (caller's parameters folded in place) but not observed")
         ELSE OK
     ELSE IF KF_PlacedBN(a, cfg) /\ ~UserParamsKept(a, cfg, asis)
          THEN K("F50:BatchNorm folded into the user's own PIT layer object: parameters of the caller's model changed")
-         ELSE V("C07.user_params: state_dict entries of the caller's model changed")
+         ELSE V("C07.user_params: state_dict entries of the caller's model changed (right after the conversion: "
+                    \o ToString(~t.sd_vals) \o ", after the history: " \o ToString(~t.sd_vals_end) \o ")")
 
 CUserOut(t, a, cfg, asis) ==
     IF ~Claimed(t.method) THEN OK
@@ -102,7 +156,17 @@ CUserOut(t, a, cfg, asis) ==
         ELSE OK
     ELSE IF KF_PlacedBN(a, cfg) /\ ~UserFnKept(a, asis)
          THEN K("F50:BatchNorm fused into the user's own PIT layer object: the caller's model now applies it twice (eval output differs by " \o ToString(t.du) \o "e-12)")
-         ELSE V("C07.user_output: eval output of the caller's model changed by " \o ToString(t.du) \o "e-12 (relative), tolerance 1000")
+         ELSE V("C07.user_output: eval output of the caller's model differs from the output recorded before the conversion by " \o ToString(t.du) \o "e-12 (relative), tolerance 1000")
+
+\* every user-visible attribute of the user's modules (not only parameters / buffers) is what the user set
+CUserAttrs(t, a) ==
+    IF ~Claimed(t.method) THEN OK
+    ELSE IF LoggedOpts(t.snopt1) # OptsOf(a)
+         THEN V("C07.user_attrs: options of the user's SuperNet blocks after the conversion " \o ToString(t.snopt1)
+                    \o " (before: " \o ToString(t.snopt0) \o ")")
+    ELSE IF Len(t.attrs_changed) > 0
+         THEN V("C07.user_attrs: attributes of the caller's modules changed: " \o ToString(t.attrs_changed))
+    ELSE OK
 
 CMode(t) ==
     IF t.method \in {"PIT", "MPS"} /\ ~(t.w1 = t.u0 /\ t.s1 = t.u0 /\ t.kids)
@@ -110,25 +174,53 @@ CMode(t) ==
              \o ", seed.training=" \o ToString(t.s1) \o ", uniform below seed=" \o ToString(t.kids))
     ELSE OK
 
+\* mode history: after every step all flags equal the last mode the user set (found mode until then; SuperNet: claimed
+\* from the first explicit train() / eval() on); every step returns
+RECURSIVE WalkH(_, _, _, _, _)
+WalkH(t, i, lastm, claimed, lin3) ==
+    IF i > Len(t.H) THEN OK
+    ELSE LET st == t.H[i]
+             l2 == IF st.a = "train" THEN TRUE ELSE IF st.a = "eval" THEN FALSE ELSE lastm
+             c2 == claimed \/ st.a \in {"train", "eval"}
+         IN  IF ~st.ok THEN
+                 IF lin3 THEN WalkH(t, i + 1, l2, c2, lin3)      \* F52: reported by CWrapped / CExport
+                 ELSE V("C07.mode_history: step " \o ToString(i) \o " (" \o st.a \o ") raised " \o st.err)
+             ELSE IF c2 /\ ~(st.w = l2 /\ st.s = l2 /\ st.kids)
+                 THEN V("C07.mode_history: after step " \o ToString(i) \o " (" \o st.a \o ") of " \o ToString(t.hist)
+                            \o ": last mode set by the user training=" \o ToString(l2) \o ", wrapper=" \o ToString(st.w)
+                            \o ", seed=" \o ToString(st.s) \o ", everything below the wrapper uniform=" \o ToString(st.kids))
+             ELSE WalkH(t, i + 1, l2, c2, lin3)
+CHist(t, a, cfg) == WalkH(t, 1, t.u0, t.method \in {"PIT", "MPS"}, Lin3Broken(t, a, cfg))
+
+\* after ANY history: the wrapper in eval mode - as it is - still equals the original in eval mode
+CHistOut(t, a, cfg, asis) ==
+    IF ~Claimed(t.method) \/ t.dwh = -1 \/ t.dwh \in 0..TOL THEN OK
+    ELSE IF (cfg.fold /\ KF_ReuseBN(a, cfg) /\ ~FnPreserved(a, asis)) \/ (Lin3Broken(t, a, cfg) /\ ~asis.ok) THEN OK   \* CWrapped reports it
+    ELSE V("C07.history_equal: after the history " \o ToString(t.hist) \o " the wrapper (training=False) differs from the original in eval mode by "
+               \o ToString(t.dwh) \o "e-12")
+
 CExport(t, a, cfg, asis) ==
     IF ~Claimed(t.method) THEN OK
-    ELSE IF ~t.exp_ok THEN V("C07.export: export() raised " \o t.exp_err)
+    ELSE IF ~t.exp_ok THEN
+        IF Lin3Broken(t, a, cfg) /\ ~asis.ok
+        THEN K("F52:searchable nn.Linear on a 3-D tensor: export() raises (" \o t.exp_err \o ")")
+        ELSE V("C07.export: export() raised " \o t.exp_err)
     ELSE LET cs   == IF t.method = "SN" THEN Choices(a) ELSE {NoChoice(a)}
              exps == {ExpSeq(a, cfg, c) : c \in cs}
-             dflt == ExpSeq(a, cfg, IF t.method = "SN" THEN FirstChoice(a) ELSE NoChoice(a))
+             dflt == ExpSeq(a, cfg, ExportChoice(a, cfg))
          IN  IF t.E \in exps THEN
-                 IF t.E # dflt THEN D("SuperNet export selected another branch than the first maximum")
+                 IF t.E # dflt THEN D("SuperNet export selected another branch than the first maximum of the coefficients")
                  ELSE IF ExportSeq("asis", a, cfg, asis) # dflt
                       THEN D("F51 predicted by the as-implemented model (re-created BatchNorm missing) but not observed")
                       ELSE OK
              ELSE IF ~cfg.fold /\ KF_ReuseBN(a, cfg) /\
-                     t.E \in {Flat(a, ExportBias(a, asis), h, NoChoice(a)) : h \in AsisBnVariants(a, cfg, asis)}
+                     t.E \in {Flat(a, ExportCfg(a, asis), ExportBias(a, asis), h, NoChoice(a)) : h \in AsisBnVariants(a, cfg, asis)}
                   THEN K("F51:export() re-creates the BatchNorm of a reused conv/linear+BN pair after one call site only: " \o FirstDiff(t.E, dflt))
                   ELSE V("C07.export_arch: " \o FirstDiff(t.E, dflt))
 
 \* predictions of the as-implemented model (never an alarm)
 CPredict(t, a, cfg, asis) ==
-    IF t.method = "PIT" /\ t.de_checked /\ FnPreserved(a, asis) /\ t.exp_ok /\ ~(t.de \in 0..TOL)
+    IF t.method = "PIT" /\ t.de_checked /\ FnPreserved(a, asis) /\ asis.ok /\ t.exp_ok /\ ~(t.de \in 0..TOL)
         THEN D("exported network (no BatchNorm re-created) differs from the original by " \o ToString(t.de) \o "e-12")
     ELSE IF Claimed(t.method) /\ ~t.sd_keys /\ UserKeysKept(a, asis)       \* keys can only appear on adopted user-placed layers
         THEN D("state_dict of the caller's model gained keys although no user-placed layer was adopted")
@@ -136,8 +228,6 @@ CPredict(t, a, cfg, asis) ==
         THEN D("caller's model left with training=" \o ToString(t.u1))
     ELSE IF t.method = "SN" /\ (t.w1 # asis.wtrain \/ t.s1 # asis.strain)
         THEN D("SuperNet mode flags wrapper=" \o ToString(t.w1) \o " seed=" \o ToString(t.s1))
-    ELSE IF \E j \in DOMAIN t.sm : ~(t.sm[j].w = t.sm[j].set /\ t.sm[j].s = t.sm[j].set /\ t.sm[j].kids)
-        THEN D("SetMode: wrapper.train(b) did not set wrapper, seed and everything below to b")
     ELSE IF t.method = "MPS" /\ t.sd_vals # ~(\E n \in Layers(a) : MpsFolds(a, n))
         THEN D("MPS in-place BatchNorm folding of the caller's layers: parameters unchanged=" \o ToString(t.sd_vals))
     ELSE OK
@@ -153,12 +243,13 @@ Pick(cl) ==
 
 Check(t) ==
     LET a    == t.arch
-        cfg  == CfgOf(t)
+        cfg  == CfgOf_(t)
         asis == Convert("asis", a, cfg)
-    IN  IF CHarness(t, a) # OK THEN CHarness(t, a)[2]       \* the scenario itself is not what the specification describes
-        ELSE IF ~t.conv_ok THEN Pick(<<CHarness(t, a), CConvert(t)>>)
-        ELSE Pick(<<CHarness(t, a), CMasks(t, a, cfg), CWrapped(t, a, cfg, asis), CUserParams(t, a, cfg, asis),
-                    CUserOut(t, a, cfg, asis), CMode(t), CExport(t, a, cfg, asis), CPredict(t, a, cfg, asis)>>)
+    IN  IF CHarness(t, a, asis) # OK THEN CHarness(t, a, asis)[2]       \* the scenario itself is not what the specification describes
+        ELSE IF ~t.conv_ok THEN Pick(<<CConvert(t, a, cfg)>>)
+        ELSE Pick(<<CConvert(t, a, cfg), CMasks(t, a, cfg), CNasCfg(t, a, cfg), CWrapped(t, a, cfg, asis),
+                    CUserParams(t, a, cfg, asis), CUserOut(t, a, cfg, asis), CUserAttrs(t, a), CMode(t), CHist(t, a, cfg),
+                    CHistOut(t, a, cfg, asis), CExport(t, a, cfg, asis), CPredict(t, a, cfg, asis)>>)
 
 Init == tid \in 1..Len(Traces) /\ verdict = Check(Traces[tid])
 Next == UNCHANGED <<tid, verdict>>
